@@ -36,6 +36,7 @@ type Spec struct {
 	EVM     bool     // precompile entry points (crossChain from ERC-20, cancel, increase fee)
 	MaxSend int      // max pool transfers ever created
 	Params  bool     // C06: parameter changes
+	Prefill int      // pool transfers created by the set-up (a pool larger than one batch can hold)
 	Focus   string   // "batches": narrowed alphabet (one sender, two fee shapes, owner cancel, plain batch requests) for deeper batch life-cycle histories
 
 	w       *world.World
@@ -48,7 +49,7 @@ type Spec struct {
 }
 
 func (s *Spec) Name() string {
-	return fmt.Sprintf("bridge/%s/%s/%s/calls=%v/in=%v/evm=%v/ext=%v/max=%d/focus=%s", s.Prop, strings.Join(s.Chains, "+"), strings.Join(s.Tokens, "+"), s.Calls, s.Inbound, s.EVM, s.ExtSim, s.MaxSend, s.Focus)
+	return fmt.Sprintf("bridge/%s/%s/%s/calls=%v/in=%v/evm=%v/ext=%v/max=%d/focus=%s/prefill=%d", s.Prop, strings.Join(s.Chains, "+"), strings.Join(s.Tokens, "+"), s.Calls, s.Inbound, s.EVM, s.ExtSim, s.MaxSend, s.Focus, s.Prefill)
 }
 
 // ---------------------------------------------------------------- model
@@ -202,6 +203,14 @@ func (s *Spec) Init() *explore.State {
 			s.fxBase[a.Name] = scen.Holdings(w, ctx, tk, a.Acc())
 		}
 	}
+	// a pool that one batch cannot empty: the set-up queues Prefill transfers of the first token through the ordinary send
+	for i := 0; i < s.Prefill; i++ {
+		s.sendOp(s.Chains[0], "u2", s.Tokens[0], 1, 2).Run(st) // on the root context itself: it is part of the scenario
+		if !st.Accepted {
+			panic("set-up: prefill send refused")
+		}
+	}
+	st.Accepted, st.Outcome = false, ""
 	return st
 }
 
